@@ -1,21 +1,20 @@
 ---------------------------- MODULE AliasesModel ----------------------------
 (***************************************************************************)
-(* Binds the constants of Aliases to the facts the driver extracted from   *)
-(* the imported package (vb/aliases.py:Model.to_json), read from the JSON  *)
-(* file named by the environment variable ALIASES_MODEL.                   *)
+(* Binds the constants of Aliases to the extracted facts of AliasesData.   *)
+(* TLC re-evaluates the right-hand side of a cfg substitution "X <- G_X"   *)
+(* at every use of X but caches ordinary constant definitions: G_X only    *)
+(* names the value C_X computed once.                                      *)
 (***************************************************************************)
-EXTENDS Aliases, IOUtils
+EXTENDS AliasesData, Aliases
 
-M == JsonDeserialize(IOEnv.ALIASES_MODEL)
-EmptyFn == [x \in {} |-> x]
-
-G_Spaces == Range(M.spaces)
-G_Modules == Range(M.modules)
-G_Bases == TLCEval([s \in G_Spaces |-> IF s \in DOMAIN M.bases THEN M.bases[s] ELSE << >>])
-G_Table == TLCEval([s \in G_Spaces |-> IF s \in DOMAIN M.table THEN M.table[s] ELSE EmptyFn])
-G_Fn == M.fn
-G_Spelling == M.spelling
-G_Renames == {<<M.renames[i][1], M.renames[i][2]>> : i \in 1..Len(M.renames)}
-G_KwRenames == {[fid |-> r.fid, space |-> r.space, fname |-> r.fname, old |-> r.old, new |-> r.new, drop |-> r.drop,
-                 params |-> Range(r.params), varkw |-> r.varkw] : r \in Range(M.kwrenames)}
+G_Spaces == C_Spaces
+G_Modules == C_Modules
+G_Bases == C_Bases
+G_Table == C_Table
+G_Static == C_Static
+G_Home == C_Home
+G_Fn == C_Fn
+G_Spelling == C_Spelling
+G_Renames == C_Renames
+G_KwRenames == C_KwRenames
 =============================================================================
